@@ -224,6 +224,8 @@ where
     pub ne: F<fn(List<E>, List<E>) -> bool>,
     pub lit3: F<fn(E, E, E) -> List<E>>,
     pub lit9: F<fn(E, E, E) -> List<E>>,
+    pub branchlit: F<fn(bool, E, E) -> List<E>>,
+    pub twolit: F<fn(bool, E, E) -> List<E>>,
     pub count: F<fn(List<E>) -> u64>,
     pub forpush: F<fn(List<E>, u64) -> u64>,
     pub find: F<fn(List<E>, E) -> u64>,
@@ -251,6 +253,14 @@ fn eq_{x}(a: List[{ty}], b: List[{ty}]) -> bool {{ a == b }}
 fn ne_{x}(a: List[{ty}], b: List[{ty}]) -> bool {{ a != b }}
 fn lit3_{x}(a: {ty}, b: {ty}, c: {ty}) -> List[{ty}] {{ [a, b, c] }}
 fn lit9_{x}(a: {ty}, b: {ty}, c: {ty}) -> List[{ty}] {{ [a, b, c, a, b, c, a, b, c] }}
+fn branchlit_{x}(c: bool, a: {ty}, b: {ty}) -> List[{ty}] {{ if c {{ [a, b] }} else {{ [b, a] }} }}
+fn twolit_{x}(c: bool, a: {ty}, b: {ty}) -> List[{ty}] {{
+    if c {{
+        let t = [a, b];
+        return t;
+    }}
+    [b, a]
+}}
 fn count_{x}(l: List[{ty}]) -> u64 {{
     let n = 0;
     for x in l {{ n = n + 1; }}
@@ -325,6 +335,8 @@ where
             ne: g!("ne"),
             lit3: g!("lit3"),
             lit9: g!("lit9"),
+            branchlit: g!("branchlit"),
+            twolit: g!("twolit"),
             count: g!("count"),
             forpush: g!("forpush"),
             find: g!("find"),
@@ -503,6 +515,13 @@ where
                 let mut it = vals.iter().map(|m| E::from_m(m, &self.inner));
                 let (a, b, c) = (it.next().unwrap(), it.next().unwrap(), it.next().unwrap());
                 let l = if script { f.lit3.call(a, b, c) } else { List::from([a, b, c]) };
+                self.slots[*dst] = Some(l);
+                Obs::Unit
+            }
+            Op::BranchLit { dst, c, vals, shape } => {
+                let a = E::from_m(&vals[0], &self.inner);
+                let b = E::from_m(&vals[1], &self.inner);
+                let l = if *shape == 0 { f.branchlit.call(*c, a, b) } else { f.twolit.call(*c, a, b) };
                 self.slots[*dst] = Some(l);
                 Obs::Unit
             }
